@@ -651,4 +651,69 @@ def compositeUniform (rows : List CompositeRow) : Bool :=
   rows.all fun a => rows.all fun b =>
     !(nameEq a.1 b.1 && nameEq a.2.1 b.2.1 && optEqName (primaryOf a) (primaryOf b)) || subsetNames (pathsOf a) (pathsOf b)
 
+/-! ### the option property itself: model of the setter / getter pair (simulation.py:560-730, whfast.py, saba.py, eos.py, trace.py)
+
+    Every named-option property of the package has the same shape:
+      setter:  int  -> field := value
+               str  -> value' := normalise(value); if value' in DICT: field := DICT[value'] else raise ValueError
+               else -> nothing
+      getter:  for name, v in DICT.items(): if field == v: return name;  return field
+    `SetterSpec` is what differs between them (case folding and the characters the setter strips); it is extracted from
+    the setter's AST on every run (RV/Gen/C18Options.lean, `pySetterSpecs`). -/
+
+inductive OptArg where
+  | str (s : Name)
+  | int (v : Int)
+  deriving Repr, Inhabited
+
+structure SetterSpec where
+  cls : Name
+  prop : Name
+  dict : Name
+  lowerCase : Bool
+  strip : List Nat        -- characters removed by `.replace(c, "")`
+  deriving Repr, Inhabited
+
+def memNat (x : Nat) : List Nat → Bool
+  | [] => false
+  | y :: r => Nat.beq x y || memNat x r
+
+/-- the setter's normalisation of a string argument -/
+def normIn (lc : Bool) (strip : List Nat) : Name → Name
+  | [] => []
+  | c :: r => let c' := if lc then lower c else c
+              if memNat c' strip then normIn lc strip r else c' :: normIn lc strip r
+
+def lookupVal (k : Name) : List (Name × Int) → Option Int
+  | [] => none
+  | (k', v) :: r => if nameEq k' k then some v else lookupVal k r
+
+/-- result of an assignment: the new field value, or `none` for ValueError (field unchanged) -/
+def setOpt (lc : Bool) (strip : List Nat) (dict : List (Name × Int)) : OptArg → Option Int
+  | .int v => some v
+  | .str s => lookupVal (normIn lc strip s) dict
+
+/-- the field after an assignment (unchanged on error) -/
+def assign (lc : Bool) (strip : List Nat) (dict : List (Name × Int)) (cur : Int) (a : OptArg) : Int :=
+  match setOpt lc strip dict a with
+  | some v => v
+  | none => cur
+
+/-- the getter: the first name whose value is the field, else the number itself -/
+def getOpt (dict : List (Name × Int)) (cur : Int) : Option Name :=
+  match dict with
+  | [] => none
+  | (n, v) :: r => if v == cur then some n else getOpt r cur
+
+/-- a whole history of assignments on one field -/
+def assignAll (lc : Bool) (strip : List Nat) (dict : List (Name × Int)) (cur : Int) : List OptArg → Int
+  | [] => cur
+  | a :: r => assignAll lc strip dict (assign lc strip dict cur a) r
+
+/-- every name of the dictionary is accepted as written and reads back as itself -/
+def dictRoundtrips (lc : Bool) (strip : List Nat) (dict : List (Name × Int)) : Bool :=
+  dict.all fun e => match setOpt lc strip dict (.str e.1) with
+    | some v => v == e.2 && optNameEq (getOpt dict v) e.1
+    | none => false
+
 end RV.Layout
